@@ -141,7 +141,13 @@ fn check(den: &Den, c: &CaseF, index: usize) -> (Vec<Violation>, bool) {
         m.sort();
         m
     };
-    let same = if c.pure { bits(&a) == bits(&b) } else { canon(&a) == canon(&b) };
+    // the answer terms agree up to renaming as well (constraints may be kept in another form)
+    let terms = |o: &crate::run::Outcome| {
+        let mut m: Vec<Vec<T>> = o.answers.iter().map(|x| canon_tuple(&x.terms)).collect();
+        m.sort();
+        m
+    };
+    let same = if c.pure { bits(&a) == bits(&b) && terms(&a) == terms(&b) } else { canon(&a) == canon(&b) };
     if !same || a.end != b.end {
         viols.push(mk("differs-from-explicit-conjunction", format!("for: {:?}; explicit conjunction `{}`: {:?}", canon(&a), c.explicit, canon(&b)), String::new()));
     }
